@@ -83,3 +83,16 @@ uint8_t vp_c17_kf_d12(void) {
   return 0;
 #endif
 }
+/* QVector<QStringView>::copyConstruct (inline; memcpy of a run-time size for this primitive type): typed element copy instead of
+   cbmc's library memcpy, which would turn the block of the static HINT_TYPES table into one opaque value */
+void _ZN7QVectorI11QStringViewE13copyConstructEPKS0_S3_PS0_(char *self, char *b, char *e, char *dst) { uint64_t n = (uint64_t)(e - b) / sizeof(struct T_class_QStringView);
+  ASSERT(n <= C17_VCAP, "QVector capacity of the C17 model exceeded"); struct T_class_QStringView *s = (struct T_class_QStringView*)b, *d = (struct T_class_QStringView*)dst;
+  for (uint32_t i = 0; i < C17_VCAP; i++) { if (i >= n) break; d[i] = s[i]; } }
+/* QVector<QStringView>(std::initializer_list) (inline) - used once, by the global constructor of the static HINT_TYPES table.
+   The translated constructor copies the initializer array through pointer-typed words, after which the `size` members are no longer
+   constants for symex.  The model rebuilds each view from its (NUL-terminated literal) data pointer and ASSERTS that the recomputed
+   length equals the stored one, so nothing is assumed. */
+void _ZN7QVectorI11QStringViewEC2ESt16initializer_listIS0_E(char *self, char *arr, uint64_t n) { ASSERT(n <= C17_VCAP, "QVector capacity of the C17 model exceeded");
+  struct c17_vsv *b = malloc(sizeof(struct c17_vsv)); ASSUME(b != 0); c17_vhdr(&b->h, C17_VCAP); b->h.f1 = (uint32_t)n; struct T_class_QStringView *s = (struct T_class_QStringView*)arr;
+  for (uint32_t i = 0; i < C17_VCAP; i++) { if (i >= n) break; char *p = s[i].f1; uint32_t len = vpl_strlen16((uint16_t*)p); ASSERT(s[i].f0 == len, "C17 model: initializer view is not a whole literal"); b->data[i].f0 = len; b->data[i].f1 = p; }
+  *(char**)self = (char*)b; }
